@@ -564,6 +564,13 @@ func judge(c *cs, st *setter, v []byte, s seen) []verdict {
 	// Other unset fields in the same view are consequences of the cut (e.g. "Trailer:x" makes the peer
 	// read ": 1" as a declared trailer name) and share the key.
 	colonCut := false
+	for _, sn := range c.setNames {
+		// net/http moves a "Trailer" field out of the header map and turns its value into declared
+		// trailer names: a name cut to "Trailer" shows up only through those.
+		if i := bytes.IndexByte(sn, ':'); i >= 0 && neutral(sn[:i]) == "trailer" && c.allow["trailer"] == 0 {
+			colonCut = true
+		}
+	}
 	for _, k := range keys {
 		if max, ok := c.allow[k]; ok && counts[k] <= max {
 			continue
